@@ -176,7 +176,8 @@ def master_cases(draw):
         st.tuples(st.just('result'), st.integers(0, 5), st.integers(1, 3)),
         st.tuples(st.just('exec_done'), st.integers(0, 5)),
         st.tuples(st.just('noise'))), max_size=16))
-    return {'kind': 'master', 'reqs': reqs, 'ops': [list(o) for o in ops]}
+    return {'kind': 'master', 'reqs': reqs, 'ops': [list(o) for o in ops],
+            'hook_trips': draw(st.integers(0, 3)) == 0}
 
 
 @st.composite
